@@ -4,6 +4,7 @@
 //   DD <bits16hex> / FD <bits8hex>       what the digit generator delivers: "<sign> <digits> <decimal_point>" | inf | -inf | nan
 //   DL D|F <decomposition...> <bits>     util::ToString(double/float from bits): "OK <hex> <footprint>"
 //   TS <op>...                           the same ops on a real util::ThreadedBufferedStream (blocks handed to the writer thread)
+//   SS <op>...                           the same ops on a real util::StringStream (length and checksum of str())
 //   ST <op>...                           real util::FileStream driven by ops (w:<n> p u64:<v> i64:<v> u32:<v> i32:<v> d:<bits> f:<bits> fl),
 //                                        prints the sizes of the writer's write() calls and a checksum of all bytes
 // footprint = number of leading bytes of the destination the call stored to (sentinel 0xAA scan).
@@ -14,6 +15,7 @@
 #include "util/file_stream.hh"
 #include "util/float_to_string.hh"
 #include "util/integer_to_string.hh"
+#include "util/string_stream.hh"
 #include "util/threaded_buffered_stream.hh"
 
 #include <cstdlib>
@@ -103,6 +105,15 @@ void ThreadedStream(const std::vector<std::string> &t) {
   std::cout << " sum=" << g_sum_b * 65536 + g_sum_a << "\n";
 }
 
+void StringStreamCase(const std::vector<std::string> &t) {
+  util::StringStream out;
+  Drive(out, t, false);
+  const std::string &s = out.str();
+  g_sum_a = 1; g_sum_b = 0;
+  for (size_t i = 0; i < s.size(); ++i) { g_sum_a = (g_sum_a + (unsigned char)s[i]) % 65521; g_sum_b = (g_sum_b + g_sum_a) % 65521; }
+  std::cout << "OK " << s.size() << " sum=" << g_sum_b * 65536 + g_sum_a << "\n";
+}
+
 void Stream(const std::vector<std::string> &t) {
   g_sizes.clear(); g_sum_a = 1; g_sum_b = 0;
   g_capture = true;
@@ -157,6 +168,7 @@ int main() {
     else if (t.size() >= 3 && c == "DL" && t[1] == "F") Format<float>(FloatOfBits(t.back()));
     else if (c == "ST") Stream(t);
     else if (c == "TS") ThreadedStream(t);
+    else if (c == "SS") StringStreamCase(t);
     else std::cout << "?\n";
   }
   return 0;
